@@ -296,6 +296,11 @@ func RunProperty(cfg Config) int {
 	if decided == 0 {
 		inconclusive = append(inconclusive, "nothing of the property was decided")
 	}
+	if len(reduced) > 0 {
+		// the registered bounds leave nothing undecided on the unchanged tree, so on
+		// this tree part of the claimed bound was not covered: never a pass
+		inconclusive = append(inconclusive, fmt.Sprintf("%d sub-check(s) not decided within the registered bound (see REDUCED-BOUND lines)", len(reduced)))
+	}
 	if len(inconclusive) > 0 && exit == 0 {
 		exit = 2
 	}
